@@ -15,7 +15,7 @@ Extraction "../build/model.ml"
   wfGb group_path gdepth connect_interval connect_one should_reject is_rejected mkF
   (* scheduler *)
   mkStatic mkDStatic init_state init_dstate apply dapply all_done failing_guards begin_preview enabled_sims prog nexts cur pc
-  prepare mkScen mkConn build ancestors check_static check_static2 flat_certified uniform_certified cycle_check walk_delay izero
+  prepare mkScen mkConn build ancestors check_static check_static2 flat_certified uniform_certified init_before_untilb cycle_check walk_delay izero
   Attrs.parse_attrs Attrs.parse_set_triple isub iand ior seqb mem mkDesc
   start deliver meta_type mkStart
   connect_evenly connect_randomly_uneven connected_set connect_many_to_one
